@@ -41,6 +41,7 @@ type Obligation struct {
 	Pos       string
 	ExpectSat bool // cover obligations
 	Props     []string
+	Skip      map[int]bool // body lines (assumed invariants) left out of this obligation's VC
 	vc        *VC
 	// results
 	Status  string // unsat sat unknown timeout error
@@ -113,6 +114,7 @@ type trans struct {
 	localAllocs   map[*ssa.Alloc]bool
 	heapRefs      map[string]string
 	assertDone    map[string]bool
+	invLines      map[int]map[string][]int
 	extraCallVars map[string]SV
 	immCap        map[*ssa.FreeVar]bool
 	sharedHeaps   map[string]bool
@@ -1624,6 +1626,13 @@ func (tr *trans) loopHeadAssume(li *loopInfo, st State) {
 		case "let":
 			env.lets[it.Name] = it.E
 		case "invariant", "assume":
+			if tr.invLines == nil {
+				tr.invLines = map[int]map[string][]int{}
+			}
+			if tr.invLines[li.ord] == nil {
+				tr.invLines[li.ord] = map[string][]int{}
+			}
+			tr.invLines[li.ord][it.Label] = append(tr.invLines[li.ord][it.Label], len(tr.vc.body))
 			tr.vc.assume(implies(tr.reach[li.head], env.elabBool(it.E)))
 		}
 	}
@@ -1676,6 +1685,26 @@ func (tr *trans) loopEdge(li *loopInfo, from, head *ssa.BasicBlock, st State, ba
 				kind = "inv-pres"
 			}
 			tr.oblige(kind, fmt.Sprintf("loop%d[%s]@b%d", li.ord, label, from.Index), implies(ec, env.elabBool(it.E)), head.Instrs[0].Pos())
+			// opt inv_core=a,b,c: the preservation of one labelled invariant is proved from the core invariants
+			// and itself only (fewer hypotheses: sound, and it keeps the quantifier instantiation small)
+			if core := tr.fc.Opts["inv_core"]; back && core != "" && it.Label != "" && len(tr.obls) > 0 {
+				keep := map[string]bool{it.Label: true, "auto-rangeindex": true, "auto-rangelen": true}
+				for _, c := range strings.Split(core, ",") {
+					keep[strings.TrimSpace(c)] = true
+				}
+				o := tr.obls[len(tr.obls)-1]
+				for lab, idxs := range tr.invLines[li.ord] {
+					if lab == "" || keep[lab] {
+						continue
+					}
+					if o.Skip == nil {
+						o.Skip = map[int]bool{}
+					}
+					for _, ix := range idxs {
+						o.Skip[ix] = true
+					}
+				}
+			}
 		case "decreases":
 			if back {
 				// variant: value at the back edge is smaller than at the head and bounded below
